@@ -81,20 +81,23 @@ def matchAlt : List (Nat → Bool) → List Nat → Option (List Nat × List Nat
   | p :: ps, c :: cs =>
     if p c then (matchAlt ps cs).map fun (m, r) => (c :: m, r) else none
 
+/-- try the alternatives of one directive in order; `cont` matches the remaining directives
+    (Python `re` backtracks into the next alternative when the continuation fails) -/
+def tryAlts (cont : List Nat → Option (List (List Nat) × List Nat)) (s : List Nat) :
+    List (List (Nat → Bool)) → Option (List (List Nat) × List Nat)
+  | [] => none
+  | a :: as =>
+    match matchAlt a s with
+    | some (m, r) =>
+      match cont r with
+      | some (ms, r') => some (m :: ms, r')
+      | none => tryAlts cont s as
+    | none => tryAlts cont s as
+
 /-- backtracking match of a sequence of directives (first match in Python `re` order) -/
 def matchDirs : List (List (List (Nat → Bool))) → List Nat → Option (List (List Nat) × List Nat)
   | [], s => some ([], s)
-  | d :: ds, s =>
-    let rec tryAlts : List (List (Nat → Bool)) → Option (List (List Nat) × List Nat)
-      | [] => none
-      | a :: as =>
-        match matchAlt a s with
-        | some (m, r) =>
-          match matchDirs ds r with
-          | some (ms, r') => some (m :: ms, r')
-          | none => tryAlts as
-        | none => tryAlts as
-    tryAlts d
+  | d :: ds, s => tryAlts (matchDirs ds) s d
 
 def digitsVal (s : List Nat) : Nat := s.foldl (fun acc c => if isDigit c then acc * 10 + (c - 48) else acc) 0
 
@@ -132,6 +135,21 @@ def scanLoop : Nat → List Nat → RDict → Except Exc RDict
 
 def isReceipt (esmClass : Nat) : Bool := (esmClass &&& 0b00111100) >>> 2 = 1
 
+/-- `not smsc_message_id`: no id in the text, or an empty one -/
+def idMissing (d : RDict) : Bool :=
+  match dictGet d kId with
+  | some (.str s) => s.isEmpty
+  | some _ => false
+  | none => true
+
+/-- fall back to the receipted_message_id parameter when the text carries no id -/
+def withTlv (d : RDict) (tlvId : Option (List Nat)) : RDict :=
+  if idMissing d then
+    match tlvId with
+    | some v => dictSet d kId (.str v)
+    | none => d
+  else d
+
 /-- `DeliverSm.parse_receipt()` (first call): esm_class, short_message, value of the first
     receipted_message_id parameter if any. -/
 def parse (esmClass : Nat) (text : List Nat) (tlvId : Option (List Nat)) : Except Exc RDict :=
@@ -139,14 +157,7 @@ def parse (esmClass : Nat) (text : List Nat) (tlvId : Option (List Nat)) : Excep
   else
     match scanLoop (text.length + 1) text [] with
     | .error e => .error e
-    | .ok d =>
-      let idMissing := match dictGet d kId with
-        | some (.str s) => s.isEmpty
-        | some _ => false
-        | none => true
-      match idMissing, tlvId with
-      | true, some v => .ok (dictSet d kId (.str v))
-      | _, _ => .ok d
+    | .ok d => .ok (withTlv d tlvId)
 
 /-! ### encode_receipt -/
 
